@@ -13,6 +13,7 @@ import (
 
 	corev1alpha1 "package-operator.run/apis/core/v1alpha1"
 	"package-operator.run/internal/packages/zzverif/checks"
+	"package-operator.run/internal/packages/zzverif/checks/twin"
 	"package-operator.run/internal/packages/zzverif/kmodel"
 	"package-operator.run/internal/packages/zzverif/osw"
 	"package-operator.run/internal/packages/zzverif/report"
@@ -464,6 +465,18 @@ func replay(v report.Violation) string {
 	return osw.ReplayBFS(system(sc), v)
 }
 
+// twinScenarios: revisions of a ClusterObjectDeployment in lockstep with an ObjectDeployment.
+func twinScenarios(quick bool) []twin.Scenario {
+	out := []twin.Scenario{
+		{Kind: "deployment", Edits: 2, Limit: -1},
+		{Kind: "deployment", Edits: 2, Limit: 0, Pauses: 1},
+	}
+	if !quick {
+		out = append(out, twin.Scenario{Kind: "deployment", Classes: []string{"ready"}, Edits: 2, Limit: -1}, twin.Scenario{Kind: "deployment", Edits: 2, Limit: 1, Pauses: 2})
+	}
+	return out
+}
+
 func init() {
 	checks.Register(&checks.Check{
 		ID:    "C07",
@@ -478,6 +491,7 @@ func init() {
 			}
 			return 7
 		}, Run: run, Replay: replay, Parallel: true},
-			{Name: "histories", Shards: func(string) int { return 8 }, Run: runHistories, Replay: replayHistory}},
+			{Name: "histories", Shards: func(string) int { return 8 }, Run: runHistories, Replay: replayHistory},
+			twin.Sub("C07", twinScenarios)},
 	})
 }
